@@ -82,6 +82,23 @@ theorem C09_accepted_consumed (G : Grammar) (s : List Char) (ast : Ast) (fin : S
     fin.rest = [] ∧ fin.idx = s.length ∧ fin.line = lineOf s ∧ fin.col = colOf s :=
   parse_accepted_end G s ast fin h
 
+/-- position order of two errors: `a` is not further into the text than `b` -/
+def Err.notAfter (a b : Err) : Prop := a.line < b.line ∨ (a.line = b.line ∧ a.col ≤ b.col)
+
+/-- **T3b** (furthest-error merging, `RINGSyntaxError.update`) Merging keeps the further of the two
+positions: the merged error is at the position of one of them and neither is after it. -/
+theorem C09_update_furthest (e c : Err) :
+    e.notAfter (e.update c) ∧ c.notAfter (e.update c) ∧
+    (((e.update c).line = e.line ∧ (e.update c).col = e.col) ∨ ((e.update c).line = c.line ∧ (e.update c).col = c.col)) := by
+  unfold Err.update Err.notAfter
+  split
+  · omega
+  · split
+    · first | omega | (dsimp only; omega)
+    · omega
+
+example : (Err.mk 1 5 [.string]).update (Err.mk 2 1 [.eos]) = Err.mk 2 1 [.eos] := by decide
+
 /-! ## The read pipeline (`Read(text)`) -/
 
 /-- **T5 for `Read`** A query is returned only for text the parser consumed to its last character. -/
